@@ -131,9 +131,13 @@ func runC04(c *Ctx) {
 	// ---------- gates
 	hl := `call<strings.LastIndex>(p0, "1")`
 	lower := "call<strings.ToLower>(p0)"
-	data := "ext#0(call<*>(load(global<repo/pkg/bech32.charset>), slice(" + lower + ", bin<+>(" + hl + ", 1), none)))"
+	// the two parts of the lower-cased string, or each part lower-cased on its own (the string is ASCII there:
+	// C04.ascii-before-fold.*, so folding preserves positions)
+	hrpLow := "alt(slice(" + lower + ", 0, " + hl + "), call<strings.ToLower>(slice(p0, 0, " + hl + ")))"
+	charsLow := "alt(slice(" + lower + ", bin<+>(" + hl + ", 1), none), call<strings.ToLower>(slice(p0, bin<+>(" + hl + ", 1), none)))"
+	data := "ext#0(call<*>(load(global<repo/pkg/bech32.charset>), " + charsLow + "))"
 	_, _, caseIdx := caseGate(c, b)
-	decStatus := "ext#1(call<*>(load(global<repo/pkg/bech32.charset>), slice(" + lower + ", bin<+>(" + hl + ", 1), none)))"
+	decStatus := "ext#1(call<*>(load(global<repo/pkg/bech32.charset>), " + charsLow + "))"
 	type gate struct {
 		name   string
 		accept []string
@@ -148,8 +152,8 @@ func runC04(c *Ctx) {
 		{"charset", []string{"bin<==>(" + decStatus + ", nil)"}, []string{"bin<!=>(" + decStatus + ", nil)"}},
 		{"checksum-length", []string{"bin<>=>(len(" + data + "), 6)"}, []string{"bin<<>(len(" + data + "), 6)"}},
 		// through the verification routine, or written out: polymod(expand(hrp) ‖ data) == 1 (the routines are decided under C16)
-		{"checksum-valid", []string{"call<*>(slice(" + lower + ", 0, " + hl + "), " + data + ")", "bin<==>(call<*>(concat(call<*>(slice(" + lower + ", 0, " + hl + ")), " + data + ")), 1)"},
-			[]string{"un<!>(call<*>(slice(" + lower + ", 0, " + hl + "), " + data + "))", "bin<!=>(call<*>(concat(call<*>(slice(" + lower + ", 0, " + hl + ")), " + data + ")), 1)"}},
+		{"checksum-valid", []string{"call<*>(" + hrpLow + ", " + data + ")", "bin<==>(call<*>(concat(call<*>(" + hrpLow + "), " + data + ")), 1)"},
+			[]string{"un<!>(call<*>(" + hrpLow + ", " + data + "))", "bin<!=>(call<*>(concat(call<*>(" + hrpLow + "), " + data + ")), 1)"}},
 		{"regroup", []string{"bin<==>(ext#1(call<repo/pkg/bech32/internal/base32.Decode>(_, slice(" + data + ", 0, bin<->(len(" + data + "), 6)))), nil)"},
 			[]string{"bin<!=>(ext#1(call<repo/pkg/bech32/internal/base32.Decode>(_, slice(" + data + ", 0, bin<->(len(" + data + "), 6)))), nil)"}},
 	}
@@ -238,7 +242,7 @@ func runC04(c *Ctx) {
 	// returned values
 	for _, v := range succ {
 		hrpT := v.Results[0]
-		_, ok := ana.Match("slice("+lower+", 0, "+hl+")", hrpT)
+		_, ok := ana.Match(hrpLow, hrpT)
 		r.Check(ok, "C04.exits.returned-hrp", c.vpos(v), "returned prefix = ToLower(s)[:hrpLen]: %s", short(hrpT.String(), 150))
 		dt := v.Results[1]
 		pat := "obj(makeslice<[]byte>(call<repo/pkg/bech32/internal/base32.DecodedLen>(len($d)), _), call<repo/pkg/bech32/internal/base32.Decode>(self, $d))"
